@@ -253,6 +253,17 @@ def compare(run, fields, tables=True):
                 strip = lambda h: " ".join(":".join(x.split(":")[:3]) for x in h.split(" ") if x)
                 if strip(mobs["heap"]) != strip(iobs["heap"]):
                     diffs.append((i, f, strip(mobs["heap"]), strip(iobs["heap"])))
+            elif f == "T0":
+                # pay-as-you-go, one-directional: where the model runs no trace the implementation must not either
+                if mobs["T"] == "0/0/0" and iobs["T"] != "0/0/0":
+                    diffs.append((i, f, mobs["T"], iobs["T"]))
+            elif f == "Tle":
+                # linearity, as a bound: the implementation may do less work than the model's trace,
+                # and at most a constant factor more (a rewrite may push or count differently)
+                mt = [int(x) for x in mobs["T"].split("/")]
+                it = [int(x) for x in iobs["T"].split("/")]
+                if it[0] > mt[0] or it[1] > 2 * mt[1] + 2 or it[2] > 2 * mt[2] + 2:
+                    diffs.append((i, f, mobs["T"], iobs["T"]))
             elif f == "heapobjs":
                 ids = lambda h: ",".join(x.split(":")[0] for x in h.split(" ") if x)
                 if ids(mobs["heap"]) != ids(iobs["heap"]):
